@@ -257,13 +257,13 @@ def _append_hexital(prop, res, repo):
         arg = mk()
         elems = list(arg) if isinstance(arg, list) else [arg]
         mgrs = {}
-        for key in (default, "T5"):
-            o = cs.ObjV(f"manager {key}", {"candles": []}, "CandleManager")
+        for key in (default, "T5", "H1"):  # (no indicator runs on H1 any more: its candles are still part of what get_candles() / candles('H1') answer)
+            o = cs.ObjV(f"manager {key}", {"candles": [], "timeframe": None if key == default else key, "name": key, "timeframe_fill": False, "candles_lifespan": None, "candlestick_type": None}, "CandleManager")
             o.attrs["append"] = (lambda a, k, kk=key: events.append(("append", kk, list(a[0]) if a and isinstance(a[0], (list, tuple)) else [a[0]] if a else [k.get("candles")])))
             mgrs[key] = o
         inds = {}
         for n_ in ("A", "B"):
-            o = cs.ObjV(f"indicator {n_}", {"name": n_}, "Indicator")
+            o = cs.ObjV(f"indicator {n_}", {"name": n_, "timeframe": None if n_ == "A" else "T5", "candles": [], "_candles": mgrs[default if n_ == "A" else "T5"], "sub_indicators": {}, "managed_indicators": {}}, "Indicator")
             for meth in ("calculate", "calculate_index", "recalculate", "purge", "_calculate_reading", "_set_reading"):
                 o.attrs[meth] = (lambda a, k, nn=n_, mm=meth: events.append((mm, nn)))
             inds[n_] = o
@@ -297,6 +297,32 @@ def _append_hexital(prop, res, repo):
             res.fail(rule, finding(prop, rule, hp, hp.node, bad, construct=f"Hexital.append: {label}"))
         else:
             n_ok += 1
+    # ---- with the managers' own append evaluated too: a manager that collapses (has a timeframe) never adopts the caller's objects,
+    # whatever key it is registered under (a strategy with its own timeframe keeps its primary manager under the default key)
+    try:
+        it = cs.Interp(repo, "hexital.core.hexital", "Hexital")
+        default = it.module_const("DEFAULT_CANDLES")
+        mi = cs.Interp(repo, "hexital.core.candle_manager", "CandleManager")
+        mgrs = {}
+        for key, tf in ((default, "T5"), ("T15", "T15")):
+            o = cs.ObjV(f"manager registered as {key!r} with timeframe {tf}", {"_tasks": lambda a, k: None}, "CandleManager")
+            mi.call_function(mi.method("__init__"), [], {"timeframe": tf}, bound_first=o)
+            o.attrs["_tasks"] = lambda a, k: None
+            mgrs[key] = o
+        given = []
+        for i in range(2):
+            c_ = cs.ObjV(f"given candle {i}", {}, "Candle")
+            c_.attrs["raw_copy"] = (lambda c__: (lambda a, k: cs.ObjV("raw copy", {"of": c__}, "Candle")))(c_)
+            given.append(c_)
+        selfo = cs.ObjV("self", {"_candles": mgrs, "_indicators": {}, "timeframe": "T5"}, "Hexital")
+        it.call_function(it.method("append"), [list(given)], {}, bound_first=selfo)
+        adopted = [k for k, m_ in mgrs.items() if any(x is g for x in m_.attrs.get("candles", []) for g in given)]
+        if adopted:
+            res.fail(rule, finding(prop, rule, hp, hp.node, f"a strategy with its own timeframe: the manager registered under {adopted[0]!r} has a timeframe (it collapses, i.e. rewrites and merges candles in place) but adopts the caller's Candle objects instead of raw copies; the other timeframe managers then copy already merged candles", construct="Hexital.append: collapsing manager adopts the given objects"))
+        elif all(len(m_.attrs.get("candles", [])) == 2 for m_ in mgrs.values()):
+            res.ok(rule, {"site": hp.where, "why": "managers with a timeframe hold raw copies of the given candles, whatever key they are registered under"}, nontrivial="Hexital.append:copies")
+    except (cs.Undecided, cs.Raised, StopIteration, AttributeError) as ex:
+        res.note(f"Hexital.append with evaluated managers not decided ({ex})")
     if n_ok:
         res.ok(rule, {"site": hp.where, "order": f"{n_ok} input forms: every manager.append(all given candles) once -> every indicator.calculate() once"}, nontrivial="Hexital.append")
         res.ok(rule, {"site": hp.where, "feeds": "the given candles, complete"}, nontrivial="Hexital.append:feed")
